@@ -103,8 +103,9 @@ func (config Config) New(session *packet.Session) (h *Handler, err error) {
 	}
 	h.mode = config.Mode
 
-	// validate dns server : set default to router IP
-	if !config.DNSServer.IsValid() {
+	// validate dns server : an IPv4-mapped address is its IPv4 address; unset or not IPv4: default to router IP
+	config.DNSServer = config.DNSServer.Unmap()
+	if !config.DNSServer.Is4() {
 		config.DNSServer = session.NICInfo.RouterAddr4.IP
 	}
 
